@@ -402,6 +402,8 @@ def run(ctx):
     # "does not depend on the stream buffer size": carried state built from samples the call did not consume changes with how
     # much input happened to be waiting (seed s8-c06) - same rule as C08.R10
     from . import c08, c19
+    c09.rule_r9(facts, ctx, rule_id="C06.R9")           # a wait answered without looking at the stream reads as quiescence (seed s10-c06)
+    ctx.floor("C06.R9", 40, "WaitForStream verdicts on effect-free paths (same rule as C09.R9)")
     c08.rule_r14(facts, ctx, rule_id="C06.R8")          # frames cut at a point that depends on the free output space (seed s9-c06)
     ctx.floor("C06.R8", 1, "write windows processed in frames (same rule as C08.R14)")
     c08.rule_r10(facts, c19._Retag(ctx, "C08.R10", "C06.R7"))
